@@ -12,7 +12,7 @@ import vlib
 LEVEL_TEXT = ('Lean 4 theorems, for all shapes/offsets/data and any number of overlapping fields (the plane statements under the hypothesis that no segment bounding box and no multiplied field has exactly one element: hbig / h1, see LEVEL_NOTE): Wavefront.intensity is |Wavefront.field|^2 '
               'sample by sample; Wavefront.insert adds weight*intensity and nothing else; Plane.multiply multiplies the embedded field by '
               'amplitude*exp(2 pi i opd/lambda) inside the mask and by 0 outside, for scalar/array amplitude, OPD and mask in every '
-              'combination (explicit Complex.exp for any segment list and for scalar masks); wavelength is handed over unchanged, the focal length passes through a plane unchanged when truthy and becomes inf when None/0 (generated Wavefront.__init__ rule), a Pupil hands over its focal length, the default plane is the identity, '
+              'combination (explicit Complex.exp for any segment list and for scalar masks); wavelength is handed over unchanged, the focal length passes through a plane unchanged when truthy and becomes inf when None/0 (generated Wavefront.__init__ rule), a Pupil hands over its focal length, along any chain of Plane/Pupil/Image steps the wavelength never changes and every phasor uses that wavelength (chain_keeps_wavelength), the plane with default attributes returns the very same wavefront (default_plane_changes_nothing; one-element fields: default_plane_identity), '
               '_mul_pixelscale (regenerated from plane.py on every run) refuses exactly the defined-and-different pairs, independently of the unit of length; the phase argument, the metadata hand-over of Plane/Pupil/Image.multiply and the wiring of the three views (which goes through reduce, intensity flag, weight) are regenerated from the source and consumed by the model; insert/intensity always return (C06 reduce_defined). The array plumbing '
               'is a hand model checked against the implementation on exact and floating-point data.')
 LEVEL_NOTE = ('Partial: (1) fields/segments with exactly one element are excluded by hypothesis (lentil treats every size-1 array as a '
